@@ -100,6 +100,22 @@ let random_histories prim cfg seed count len out =
     output_string out (str_history prim cfg "A" (List.rev !ops)); output_char out '\n'
   done
 
+(* ---------- continuations of given histories (divergence follow-up) ---------- *)
+let extend depth hist_file out =
+  let hc = open_in hist_file in
+  (try while true do
+    let h = parse_history (input_line hc) in
+    let m = machine h.prim in
+    let s0 = List.fold_left (fun s o -> fst (m.Base.m_step s o)) (m.Base.m_init h.cfg) h.ops in
+    let rec go s rpath d =
+      if d > 0 then
+        List.iter (fun o ->
+          let (s', _) = m.Base.m_step s o in
+          output_string out (str_history h.prim h.cfg "A" (h.ops @ List.rev (o :: rpath))); output_char out '\n';
+          go s' (o :: rpath) (d - 1)) (m.Base.m_enabled s) in
+    go s0 [] depth
+  done with End_of_file -> ())
+
 (* ---------- comparison ---------- *)
 let parse_obs s =
   List.map (fun f -> match String.index_opt f ':' with
@@ -187,7 +203,17 @@ let monitor_files which hist_file obs_file use_model =
                 else List.map obs_of_string (if ol = "" then [] else split_on ';' ol) in
       if List.length obs = List.length h.ops then begin
         incr checked;
-        let tr = List.combine h.ops obs in
+        (* a history is contract-respecting only relative to what the implementation itself
+           answered: cut the trace before the first call the implementation rejected as not
+           callable (99) or answered with a panic (3) -- e.g. a poll the model considers legal
+           but that is a poll-after-completion for a diverged implementation *)
+        let rec cut = function
+          | [] -> []
+          | (o, ob) :: r ->
+              (match ob.Base.o_res with
+               | c :: _ when (int_of_n c = 99 || int_of_n c = 3) && not use_model -> []
+               | _ -> (o, ob) :: cut r) in
+        let tr = cut (List.combine h.ops obs) in
         match first_failure m which h.cfg tr with
         | None -> ()
         | Some i ->
@@ -219,6 +245,7 @@ let () =
       random_histories prim (nlist cfg) (int_of_string seed) (int_of_string count) (int_of_string len) stdout
   | _ :: "compare" :: h :: o :: _ -> compare_files h o
   | _ :: "print" :: h :: _ -> print_model h
+  | _ :: "extend" :: d :: h :: _ -> extend (int_of_string d) h stdout
   | _ :: "monitor" :: which :: h :: o :: _ -> monitor_files (n_of_string which) h o false
   | _ :: "monitor-model" :: which :: h :: _ -> monitor_files (n_of_string which) h "" true
   | _ -> prerr_endline "usage: modelrun explore|random|compare|print ..."; exit 2
